@@ -1742,3 +1742,51 @@ Proof.
     + intros [|[|j]] t Hj Hl; simpl in Hj; try discriminate; left; reflexivity.
     + split; [vm_compute; reflexivity|]. split; [vm_compute; reflexivity|]. repeat split; reflexivity.
 Qed.
+
+(* ================================================================== *)
+(* the results log                                                       *)
+(* ================================================================== *)
+Definition log_ok (rows : list row) (out : list (nat * Z)) (used : list (option (list Z))) : Prop :=
+  map row_key rows = out /\ map row_extra rows = map ans_cols used.
+
+Lemma next_ans_take comp : forall ans comp', next_ans comp = (ans, comp') ->
+  (comp = ans :: comp') \/ (comp = [] /\ ans = None /\ comp' = []).
+Proof. destruct comp; simpl; intros ans comp' H; inversion H; auto. Qed.
+
+(* the first loop of _update_running_trials and the log: same skips, one row per delivered result *)
+Lemma log_loop_ok bk batch : forall decs comp done ts out rows used ts' out' done' rows' comp',
+  update_loop bk batch decs done ts out = (ts', out', done') ->
+  log_loop batch decs comp done rows = (rows', comp') ->
+  log_ok rows out used ->
+  exists used', log_ok rows' out' (used ++ used') /\
+                (forall rest, comp = map Some rest ++ comp' -> True) /\
+                (map ans_cols used' = map ans_cols (firstn (length used') (comp ++ repeat None (length used')))).
+Proof.
+  induction batch as [|[i r] rest IH]; intros decs comp done ts out rows used ts' out' done' rows' comp' U L H; simpl in U, L.
+  - inversion U; inversion L; subst. exists []. rewrite app_nil_r. repeat split; auto.
+  - destruct (mem_nat i done).
+    + eapply IH; eauto.
+    + destruct (next_dec decs) as [[d late] decs'] eqn:En.
+      destruct (next_ans comp) as [ans comp1] eqn:Ea.
+      assert (H1 : log_ok (rows ++ [store_row i (snd r) ans]) (out ++ [(i, snd r)]) (used ++ [ans])).
+      { destruct H as (Hk & He). split; rewrite !map_app; simpl; [rewrite Hk|rewrite He]; reflexivity. }
+      assert (Hstep : forall done1 ts1,
+                update_loop bk rest decs' done1 ts1 (out ++ [(i, snd r)]) = (ts', out', done') ->
+                log_loop rest decs' comp1 done1 (rows ++ [store_row i (snd r) ans]) = (rows', comp') ->
+                exists used', log_ok rows' out' (used ++ used') /\ (forall rest0, comp = map Some rest0 ++ comp' -> True) /\
+                  map ans_cols used' = map ans_cols (firstn (length used') (comp ++ repeat None (length used')))).
+      { intros done1 ts1 U1 L1.
+        destruct (IH _ _ _ _ _ _ (used ++ [ans]) _ _ _ _ _ U1 L1 H1) as (u' & Hok & _ & Hu).
+        exists (ans :: u'). rewrite <- app_assoc in Hok. simpl in Hok. split; [exact Hok|]. split; [auto|].
+        simpl. destruct (next_ans_take _ _ _ Ea) as [->|(-> & -> & ->)]; simpl.
+        - f_equal. rewrite Hu. f_equal. f_equal.
+          rewrite <- (firstn_all (repeat None (length u'))) at 1.
+          clear. generalize (length u'). intros n. revert comp1. induction n; intros; simpl; [rewrite app_nil_r; reflexivity|].
+          change (None :: repeat None n) with ([@None (list Z)] ++ repeat None n).
+          rewrite (repeat_cons n (@None (list Z))). rewrite app_assoc. reflexivity.
+        - f_equal. rewrite Hu. simpl. reflexivity. }
+      destruct d.
+      * eapply Hstep; eauto.
+      * eapply Hstep; eauto.
+      * destruct (status_eqb (status_at ts i) Completed); eapply Hstep; eauto.
+Qed.
